@@ -19,7 +19,7 @@ Python contains no oracle: signatures only name the clause TLC reported plus str
 import os
 
 from .. import tlc, upj
-from ..common import MachineryError, time_limit, ImplTimeout
+from ..common import MachineryError, time_limit, ImplTimeout, load_known, match_known
 
 ENUM_CFG = 'INIT Init\nNEXT Next\nCONSTANTS Depth = %d\n Tier = "%s"\n'
 TRACE_CFG = "SPECIFICATION TraceSpec\nINVARIANT Verdict\n"
@@ -349,8 +349,12 @@ def run(ctx):
         total += n
 
     # ---- vacuity guards (exit 2, never a verdict) ------------------------------------------
+    # The statistics depend on the answers of the code under test: when they are degenerate AND the
+    # judge found violations that are not known findings, the violations are the result (exit 1).
+    known = load_known()
+    has_new = any(match_known(ctx.pid, v.sig, known) is None for v in ctx.violations)
     for k in ("lin", "nonlin", "pos_only", "neg_only", "both", "kind", "kind_snp"):
-        if stats.get(k, 0) == 0:
+        if stats.get(k, 0) == 0 and not has_new:
             raise MachineryError("vacuous run: no observation with %s (statistics %r)" % (k, stats))
     wit = tally.get("aswritten_witnesses", set())
     if "(x / q)" not in wit:
